@@ -1,9 +1,33 @@
-"""message type for struct-typed specification variables (imported by the specification through import_module)"""
+"""message types for struct-typed specification variables (imported by the specification through import_module).
+A Msg carries the same number at several depths, so that a field path of any length reads it:
+    m.value, m.header.value, m.pose.pose.value, m.pose.pose.position.value"""
+
+
+class Leaf(object):
+    def __init__(self, value=0.0):
+        self.value = value
+
+
+class Mid(object):
+    def __init__(self, value=0.0):
+        self.value = value
+        self.position = Leaf(value)
+
+
+class Outer(object):
+    def __init__(self, value=0.0):
+        self.value = value
+        self.pose = Mid(value)
 
 
 class Msg(object):
     def __init__(self, value=0.0):
         self.value = value
+        self.header = Leaf(value)
+        self.pose = Outer(value)
 
     def __repr__(self):
         return 'Msg(%r)' % (self.value,)
+
+
+PATHS = ['value', 'value', 'header.value', 'pose.pose.value', 'pose.pose.position.value']
